@@ -38,6 +38,8 @@ CHECKS = {
          "scaled and base asset share the window; R1 active duration; R2 plug-in", "bounded exhaustive scenario enumeration + differential oracle against the equivalent plain portfolio", "2 C16"),
  "C18": ("E1 LP portfolios (incl. split mode, structured wrappers, nodes without dispatch at some steps) x EVERY (node, step) with a reported price x both signs of a small injection realised by an extra must-run contract; V(d) <= V(0) + price*d on every perturbation",
          "valid for any optimal dual (degeneracy-proof); V(d) from the real code with HiGHS; d = +-0.05", "bounded exhaustive scenario enumeration x all (node, step, sign) perturbations", "2 C18"),
+ "C14": ("E1 portfolios x interval sizes {12h, d, 5h, 2d} x horizons (aligned, offset start, partial last step, autumn clock change, 3 days); split value = sum of per-interval R2 optima with original elapsed time, balance and per-interval plug-in on the original grid, equality with the unsplit optimum when nothing couples, <= unsplit with start=end storages",
+         "R2 per interval (steps subset, original Dt); coupling classified from the scenario", "bounded exhaustive scenario enumeration against per-interval reference models", "2 C14"),
 }
 
 def main():
